@@ -873,7 +873,7 @@ class UnitBuilder:
                 raise Undecided(f"unsupported attribute #[{nm}] on {fnq}")
             self.rep.drop(f"#[{nm}]")
         toks = strip_vis(it.toks)
-        if self.spec.mode == "verus" and fs.kind == "fn" and imp is None:
+        if self.spec.mode == "verus" and fs.kind == "fn":
             self.auto_consts(s, toks)
         bo = next(i for i, t in enumerate(toks) if is_p(t, "{") and i >= (it.body_open - (len(it.toks) - len(toks))))
         sig, body = toks[:bo], toks[bo:]
